@@ -279,7 +279,13 @@ def build_ws(ws, prop, batches):
     pr = sh(["cargo", "build", "-q", "--keep-going"], cwd=ws, check=False)
     failed = sorted(set(re.findall(r"could not compile `\w+?_b(\d+)`", pr.stdout)), key=int)
     if not failed:
-        sys.stderr.write(pr.stdout[-4000:])
+        # no generated crate is at fault: typically a compiler process killed for lack of memory while many large
+        # crates were built at once (thorough tiers on a loaded machine). One retry with few parallel jobs.
+        pr2 = sh(["cargo", "build", "-q", "-j", "4"], cwd=ws, check=False)
+        if pr2.returncode == 0:
+            return []
+        errs = [l for l in pr2.stdout.splitlines() if l.startswith("error")]
+        sys.stderr.write("\n".join(errs[:20]) + "\n" + pr2.stdout[-2500:])
         raise Inconclusive("cargo build failed outside the generated program crates")
     out = []
     # split the diagnostics and attribute them to modules
